@@ -554,7 +554,9 @@ var hungTotal int32
 func runCase(c *testCase, leakCheck bool) caseOut {
 	var out caseOut
 	out.lines = append(out.lines, [2]string{c.tf.caseLine(c.id), fmt.Sprintf("ok chunks=%d size=%d valid=%v", len(c.tf.chunks), c.tf.size, c.tf.valid)})
+	markStart(c.id, c.replay(-1)+"# (during the per-function runs of runRManager / runRWorker on this file)")
 	pf := perFunction(c, hlib.NewRand(c.tf.seed^uint64(c.id)*0x9E3779B97F4A7C15))
+	markDone(c.id)
 	out.lines = append(out.lines, pf.lines...)
 	out.fails = append(out.fails, pf.fails...)
 	out.perfunc = len(pf.lines)
@@ -567,7 +569,9 @@ func runCase(c *testCase, leakCheck bool) caseOut {
 			shown = 0
 		}
 		out.lines = append(out.lines, [2]string{fmt.Sprintf("open c=%d", shown), "ok"})
+		markStart(c.id, strings.Replace(c.replay(-1), "\n", fmt.Sprintf("\n# c=%d\n", shown), 1))
 		res := runSeq(c.tf, lv, c.ops, leakCheck && atomic.LoadInt32(&hungTotal) == 0)
+		markDone(c.id)
 		for i, o := range res.outs {
 			out.lines = append(out.lines, [2]string{c.ops[i].line(), o})
 		}
@@ -633,6 +637,11 @@ func corpusCases(rng *hlib.Rand) []*testCase {
 	mk(50, 1000, []op{{kind: "seekrange", a: 0, b: 100}, {kind: "read", a: 50}, {kind: "seek", a: 0, b: 1}, {kind: "read", a: 100}, {kind: "read", a: 100}, {kind: "close"}})
 	// read to the end, seek back
 	mk(20, 100, []op{{kind: "seek", a: -10, b: 2}, {kind: "read", a: 100}, {kind: "read", a: 1}, {kind: "seek", a: 0, b: 0}, {kind: "read", a: 100}, {kind: "close"}})
+	// chunks larger than a Worker's two buffers (2 x 64 KiB), more chunks than reqc + Workers can hold: after a short
+	// Read the Manager has filled reqc and every Worker is waiting for a buffer; then seek far away, twice
+	mk(12, 262144, []op{{kind: "read", a: 100}, {kind: "seek", a: 7*262144 + 5, b: 0}, {kind: "read", a: 100},
+		{kind: "seek", a: 2*262144 - 50, b: 0}, {kind: "read", a: 300000}, {kind: "seekrange", a: 11 * 262144, b: 11*262144 + 10},
+		{kind: "read", a: 100}, {kind: "close"}})
 	// many cancellations in a row
 	var ops []op
 	for i := 0; i < 40; i++ {
@@ -644,6 +653,9 @@ func corpusCases(rng *hlib.Rand) []*testCase {
 }
 
 func main() {
+	if supervise() {
+		return
+	}
 	r := hlib.Start("C14")
 	if r.Mode == "race" {
 		raceMain(r)
@@ -651,7 +663,7 @@ func main() {
 	}
 	nCases := 130
 	if r.Thorough {
-		nCases = 6000
+		nCases = 4000
 	}
 	// ---- generate
 	var cases []*testCase
